@@ -1,5 +1,3 @@
-//go:build wip_c13
-
 package props
 
 import (
@@ -79,12 +77,13 @@ type c13CondRun struct {
 	aft     *c14Chain
 	trigger string
 
-	obs     []c13Obs
-	bypass  []kit.S // states at the evaluation loop's back edge that passed no sink
-	arrived int     // back-edge arrivals
-	bad     []string
-	bf      *kit.BoolFlow
-	corr    *ruCorr
+	obs      []c13Obs
+	bypass   []kit.S // states at the evaluation loop's back edge that passed no sink
+	arrived  int     // back-edge arrivals
+	unstored int     // back-edge arrivals where the computed state differed from the stored one and was not stored
+	bad      []string
+	bf       *kit.BoolFlow
+	corr     *ruCorr
 }
 
 func (r *c13CondRun) note(format string, a ...any) {
@@ -286,6 +285,12 @@ func (r *c13CondRun) run() {
 		if !ok {
 			return "", false, false
 		}
+		// computed state vs stored state: "cdiff" = they differ
+		if op == token.EQL || op == token.NEQ {
+			if (isCondActive(a) && kit.IsBoolType(info.TypeOf(b))) || (isCondActive(b) && kit.IsBoolType(info.TypeOf(a))) {
+				return "cdiff", op == token.EQL, true
+			}
+		}
 		for _, fl := range filt {
 			for _, sw := range [2][2]ast.Expr{{a, b}, {b, a}} {
 				x, y := sw[0], sw[1]
@@ -358,7 +363,7 @@ func (r *c13CondRun) run() {
 		for i, l := range as.Lhs {
 			if m.isStoreTo(f, l, m.cf["active"], m.cond) && len(as.Rhs) == len(as.Lhs) {
 				r.observe(as.Rhs[i], as, s)
-				s = s.Set("sunk", "T")
+				s = s.Set("sunk", "T").Set("stored", "T")
 			}
 			// local copy of a scenario field
 			if len(as.Rhs) == len(as.Lhs) && (as.Tok == token.ASSIGN || as.Tok == token.DEFINE) {
@@ -396,6 +401,9 @@ func (r *c13CondRun) run() {
 				r.arrived++
 				if s.Get("sunk") != "T" {
 					r.bypass = append(r.bypass, s)
+				}
+				if s.Get("a:cdiff") == "T" && s.Get("stored") != "T" {
+					r.unstored++
 				}
 				return nil, nil, true // one iteration is the unit of the rule
 			case m.isPointLoop(f, br.Range):
@@ -440,7 +448,7 @@ func (r *c13CondRun) run() {
 				r.note("the schedule predicate at %s receives `%s` instead of the trigger point's time", f.At(call), f.Str(call.Args[0]))
 			}
 			return "" // not derivable: the condition value stays unknown
-			
+
 		}
 	}
 	res := g.Run(r.init, bf.Client())
@@ -490,6 +498,9 @@ func (r *c13CondRun) verdict0(want bool, skipped bool) (status string, msg strin
 			continue
 		}
 		return "violation", "a path through the evaluation loop body leaves the condition state untouched although the point matches the condition", nil
+	}
+	if r.unstored > 0 {
+		return "violation", "a path compares the computed state with the stored one, finds them different and does not store the computed state (previous state = the opposite of the computed one)", nil
 	}
 	if len(r.obs) == 0 {
 		if r.arrived == 0 {
